@@ -178,6 +178,8 @@ def _step(b: Builder, h: str, profile, H: int, force_mapped: bool = False) -> st
     unmapped = ["tanh", "relu", "mul_scalar", "neg", "reshape_roundtrip", "slice_cat", "add_scalar", "mul_tensor", "plain_add", "self_add", "sibling_add"]
     if profile.get("extras"):
         unmapped += ["rotate_half", "where_mask", "gather_argmax", "stack_mean"]
+    if "inplace_fn" in forms:
+        unmapped += ["inplace_fn", "inplace_fn"]
     if profile.get("quant_focus"):
         mapped = ["linear_pair", "linear_one", "sdpa", "linear_one", "sdpa", "gelu", "layer_norm", "softmax"]
     choice = rng.choice(mapped) if (force_mapped or rng.random() < 0.65) else rng.choice(unmapped)
@@ -255,6 +257,11 @@ def _step(b: Builder, h: str, profile, H: int, force_mapped: bool = False) -> st
         return b.op("sdpa", ins, [B, S, D], **kw)
     if choice == "mul_scalar":
         return b.op("mul_scalar", [h], [B, S, D], c=rng.choice([0.5, 2.0, -1.5]))
+    if choice == "inplace_fn":
+        # an in-place op written as a FUNCTION and used as a bare statement (its result is discarded, the mutated tensor is used
+        # on): F.relu(t, inplace=True) / torch.relu_(t) / torch.clamp_(t, min=0) on a fresh product
+        t = b.op("mul_scalar", [h], [B, S, D], c=rng.choice([1.5, -2.0]))
+        return b.op("relu_inplace_fn", [t], [B, S, D], spell=rng.choice(["F.relu", "torch.relu_", "torch.clamp_"]))
     if choice == "add_scalar":
         return b.op("add_scalar", [h], [B, S, D], c=rng.choice([1.0, -0.25, 2]))
     if choice == "mul_tensor":
@@ -413,6 +420,9 @@ def emit_op(o: Dict[str, Any]) -> str:
         return f"{out} = {a[0]} + {kw['c']!r}"
     if op == "mul_scalar":
         return f"{out} = {a[0]} * {kw['c']!r}"
+    if op == "relu_inplace_fn":
+        stmt = {"F.relu": f"F.relu({a[0]}, inplace=True)", "torch.relu_": f"torch.relu_({a[0]})", "torch.clamp_": f"torch.clamp_({a[0]}, min=0.0)"}[kw["spell"]]
+        return stmt + f"\n        {out} = {a[0]}"
     if op == "mul":
         return f"{out} = {a[0]} * {a[1]}"
     if op == "reshape":
@@ -699,6 +709,8 @@ def interpret(prog: Dict[str, Any], params: Dict[str, Any], inputs: List[Any], s
             env[out] = a[0] + kw["c"]
         elif op == "mul_scalar":
             env[out] = a[0] * kw["c"]
+        elif op == "relu_inplace_fn":
+            env[out] = F.relu(a[0])
         elif op == "mul":
             env[out] = a[0] * a[1]
         elif op == "reshape":
